@@ -447,6 +447,16 @@ pub uninterp spec fn has_file_sources(s: SecretV) -> bool;
 /// the secret `write_update_checksum` hands back for rewriting (file_manager.rs:518-539): the
 /// same secret with checksum / size of the encrypted external files filled in (`copy_file_secret`)
 pub uninterp spec fn checksum_update(before: SecretV, after: SecretV) -> bool;
+/// WHETHER `create_files` hands back a row to re-write (file_manager.rs:518-550 `changed`): the secret is an external file
+/// secret, or a file was encrypted for one of its attachment fields (`get_file_sources(secret)`) — a function of the secret
+pub uninterp spec fn needs_rewrite_new(s: SecretV) -> bool;
+/// WHETHER `update_files` hands back a row to re-write (file_manager.rs:213: `get_file_sources(new_secret)` not empty, then
+/// `changed` of write_update_checksum) — a function of the new secret
+pub uninterp spec fn needs_rewrite_upd(s: SecretV) -> bool;
+/// WHICH secret is handed back: the input secret with the checksum / size of the files that were encrypted, which the
+/// returned `FileMutationEvent::Create { result, .. }` events carry (unit filemgr [rewrite_keeps_everything_but_file_content],
+/// [attachment_checksum_lands_on_its_field], [file_checksum_is_its_result]) — a function of the secret and the returned events
+pub uninterp spec fn rewritten(s: SecretV, evs: Seq<FileMutationEvent>) -> SecretV;
 /// crates/storage/client/src/files/file_manager.rs `ExternalFileManager`: encrypted file blobs
 /// and the file event log; it holds neither folders nor the search index.
 #[verifier::external_body]
@@ -463,7 +473,9 @@ impl ExternalFileManager {
     pub fn create_files(&mut self, summary: &Summary, secret_data: SecretRow, file_progress: &mut Option<FileProgressSender>)
         -> (r: ClResult<(Vec<FileMutationEvent>, Option<(SecretId, SecretRow)>)>)
         ensures final(self).logged() == old(self).logged(),
-            r matches Ok((_, Some((wid, wrow)))) ==> wid@ == secret_data.id@ && wrow.id@ == secret_data.id@ && wrow.meta@ == secret_data.meta@
+            r matches Ok((evs, w)) ==> (w is Some <==> needs_rewrite_new(secret_data.secret@)),
+            r matches Ok((evs, Some((wid, wrow)))) ==> wid@ == secret_data.id@ && wrow.id@ == secret_data.id@ && wrow.meta@ == secret_data.meta@
+            && wrow.secret@ == rewritten(secret_data.secret@, evs@)
             && checksum_update(secret_data.secret@, wrow.secret@)
             && (!has_file_sources(secret_data.secret@) ==> wrow.secret@ == secret_data.secret@),
     { unimplemented!() }
@@ -472,7 +484,9 @@ impl ExternalFileManager {
     pub fn update_files(&mut self, old_summary: &Summary, new_summary: &Summary, old_secret: &SecretRow, new_secret: SecretRow, file_progress: &mut Option<FileProgressSender>)
         -> (r: ClResult<(Vec<FileMutationEvent>, Option<(SecretId, SecretRow)>)>)
         ensures final(self).logged() == old(self).logged(),
-            r matches Ok((_, Some((wid, wrow)))) ==> wid@ == new_secret.id@ && wrow.id@ == new_secret.id@ && wrow.meta@ == new_secret.meta@
+            r matches Ok((evs, w)) ==> (w is Some <==> needs_rewrite_upd(new_secret.secret@)),
+            r matches Ok((evs, Some((wid, wrow)))) ==> wid@ == new_secret.id@ && wrow.id@ == new_secret.id@ && wrow.meta@ == new_secret.meta@
+            && wrow.secret@ == rewritten(new_secret.secret@, evs@)
             && checksum_update(new_secret.secret@, wrow.secret@),
     { unimplemented!() }
     /// file_manager.rs:232 `delete_files`
